@@ -27,6 +27,9 @@ re-run it on a freshly built identical tree once per step k = 0..n-1 and per fau
 making step k raise INSTEAD of being performed:
 
   fserror  fs.errors.OperationFailed            oserror  OSError(EIO)
+  fs:<C>   the fs.errors class C, for every class some `except` clause of the library names (found by scanning
+           the sources: ResourceNotFound, DirectoryExists, DirectoryExpected, NoSysPath ...) -- code that takes a
+           particular class as an answer ("not there", "already there") must not lose data on it either
   crash    a BaseException no `except Exception` / `except FSError` handler catches
            (finally blocks and __exit__ still run and still do I/O)
   halt     the process stops: the failing step and EVERY later step of every thread raise,
@@ -104,10 +107,119 @@ KNOWN_LOCAL = os.path.join(os.path.dirname(os.path.abspath(__file__)), "c07_know
 # known_findings.json yet (signature strings).  They are routed through report.known_match first; while a
 # signature is listed here and not yet known it is recorded in the evidence (coverage['pending_findings'])
 # instead of failing the check.
-PENDING_FINDINGS = []
+PENDING_FINDINGS = [
+    # MultiFS source whose write layer answers ResourceNotFound ONCE for a file it holds (fault kind
+    # fs:ResourceNotFound at a getinfo of the top layer): MultiFS._delegate / getinfo take the answer as "this layer
+    # does not have it" and route the read to the lower layer, so move_file / move_dir copy the STALE revision of
+    # the lower layer to the destination, then remove the current revision from the write layer and return normally
+    "source-data-lost move_file getinfo fs:ResourceNotFound [multifs-source]",
+    "failure-not-reported move_file getinfo fs:ResourceNotFound [multifs-source]",
+    "source-data-lost move_dir getinfo fs:ResourceNotFound [multifs-source]",
+    "failure-not-reported move_dir getinfo fs:ResourceNotFound [multifs-source]",
+]
 
 # spellings of the FS URL of a directory <dir> (fs.opener: the default protocol is osfs)
 URL_FORMS = ("osfs://%s", "%s", "osfs://%s/")
+
+
+# ---- fault kinds "fs:<Class>": the failing step raises THAT fs.errors class.  The library special-cases particular
+# error classes (FS.exists / Walker / copy_modified_time take ResourceNotFound as "not there", makedirs takes
+# DirectoryExists as "already there", MultiFS takes DirectoryExpected as "nothing to list" ...); such a handler is
+# never entered by the generic OperationFailed.  The classes are FOUND, not listed: every `except` clause of the
+# library sources that names a class defined in fs.errors (other than the FSError root, which the generic kind
+# covers), plus the classes of ALWAYS_CLASSES (the documented "answers" of the primitives).
+ALWAYS_CLASSES = ("ResourceNotFound", "DirectoryExists", "FileExists", "DestinationExists", "ResourceReadOnly",
+                  "PermissionDenied", "DirectoryExpected", "FileExpected", "DirectoryNotEmpty")
+# the primitives whose answers steer the control flow of a move: every class is injected at every such step
+CLASS_KEY_PRIMS = ("scandir", "listdir", "getinfo", "makedir", "openbin.r", "openbin.w", "open.r", "open.w")
+
+
+def _caught_error_classes():
+    """({class name: [file:line of an except clause naming it]}, sorted class names to inject)."""
+    import ast
+    root = os.path.dirname(os.path.abspath(fs.__file__))
+    sites = {}
+
+    def names_of(node):
+        if node is None:
+            return []
+        if isinstance(node, ast.Tuple):
+            out = []
+            for e in node.elts:
+                out.extend(names_of(e))
+            return out
+        if isinstance(node, ast.Name):
+            return [node.id]
+        if isinstance(node, ast.Attribute):
+            return [node.attr]
+        return []
+    for dirpath, _dirs, files in os.walk(root):
+        for fn in sorted(files):
+            if not fn.endswith(".py") or fn == "test.py":
+                continue
+            full = os.path.join(dirpath, fn)
+            try:
+                with open(full, "rb") as fh:
+                    tree = ast.parse(fh.read(), full)
+            except (OSError, SyntaxError, ValueError):
+                continue
+            for node in ast.walk(tree):
+                if not isinstance(node, ast.ExceptHandler):
+                    continue
+                for name in names_of(node.type):
+                    cls = getattr(fs.errors, name, None)
+                    if isinstance(cls, type) and issubclass(cls, BaseException) and \
+                            cls.__module__ == fs.errors.__name__ and cls is not fs.errors.FSError:
+                        sites.setdefault(name, []).append("%s:%d" % (os.path.relpath(full, root), node.lineno))
+    names = set(sites) | set(n for n in ALWAYS_CLASSES if hasattr(fs.errors, n))
+    names = sorted(n for n in names if _make_error(n, "/probe") is not None)
+    return sites, names
+
+
+def _make_error(name, path):
+    """An instance of the fs.errors class `name` about `path` (None when it cannot be built)."""
+    cls = getattr(fs.errors, name)
+    path = str(path)
+    special = {"NoURL": lambda: cls(path, "download"), "MissingInfoNamespace": lambda: cls("details"),
+               "BulkCopyFailed": lambda: cls([]), "CreateFailed": lambda: cls("injected fault")}
+    attempts = ([special[name]] if name in special else []) + [
+        lambda: cls(path), lambda: cls(path=path), lambda: cls(path, msg="injected fault"),
+        lambda: cls(msg="injected fault"), lambda: cls()]
+    for make in attempts:
+        try:
+            return make()
+        except TypeError:
+            continue
+    return None
+
+
+CAUGHT_SITES, CAUGHT_CLASSES = _caught_error_classes()
+# the classes the library special-cases in more than one place are injected at EVERY key step of the quick tier, the
+# others rotate (QUICK_ROTATING per step)
+HOT_CLASSES = [n for n in CAUGHT_CLASSES if len(CAUGHT_SITES.get(n, ())) >= 2]
+COLD_CLASSES = [n for n in CAUGHT_CLASSES if n not in HOT_CLASSES]
+QUICK_ROTATING = 2
+
+
+def class_kinds(case, k, prim, rep, mode, seed=0):
+    """The "fs:<Class>" fault kinds run at step k of a case.
+
+    thorough: every class at every step.  quick: at the steps of CLASS_KEY_PRIMS every HOT class + QUICK_ROTATING of
+    the other classes, at every other step one class (rotating with the step index, the case and the seed); with
+    workers > 0 only in the first repeat."""
+    if not CAUGHT_CLASSES or mode == "off" or prim == "os.rename" or prim.startswith("mem."):
+        return ()
+    if mode == "thorough":
+        return tuple("fs:" + n for n in CAUGHT_CLASSES)
+    if rep > 0:
+        return ()
+    import zlib
+    salt = zlib.crc32(json.dumps(case, sort_keys=True, default=str).encode("utf-8"))
+    if prim in CLASS_KEY_PRIMS:
+        rot = [COLD_CLASSES[(salt + QUICK_ROTATING * k + seed + i) % len(COLD_CLASSES)]
+               for i in range(min(QUICK_ROTATING, len(COLD_CLASSES)))] if COLD_CLASSES else []
+        return tuple("fs:" + n for n in HOT_CLASSES + rot)
+    return ("fs:" + CAUGHT_CLASSES[(salt + k + seed) % len(CAUGHT_CLASSES)],)
 
 
 class Halt(BaseException):
@@ -190,6 +302,8 @@ class Injector(object):
         if self.kind.startswith("oserror-"):
             # errno-specific handling (retry loops, "not found" shortcuts) must not swallow the failure either
             raise OSError(getattr(errno, self.kind.split("-", 1)[1]), "injected fault")
+        if self.kind.startswith("fs:"):
+            raise _make_error(self.kind[3:], path)
         if self.kind == "crash":
             raise Crash()
         raise Halt()
@@ -906,7 +1020,14 @@ def judge(case, res, kind):
         why = RECOVERED_BY_DESIGN.get((prim, kind))
         moved = all(p not in res["src_after"] or mp[p] == p for p in mp) and \
             all(res["dst_after"].get(q) == before[p] for p, q in mp.items())
-        if why is None:
+        if kind.startswith("fs:"):
+            # a specific fs.errors class is an ANSWER of the primitive as much as a failure ("not there", "already
+            # there", "not a directory"): the code may act on it and go on -- but a call that then returns
+            # normally must have completed the move (and, above, nothing may be lost either way)
+            if not moved:
+                out.append(("failure-not-reported", "step %d (%s) raised %s and the call returned normally, but "
+                            "the move is incomplete" % (res["fired"], prim, kind[3:])))
+        elif why is None:
             out.append(("failure-not-reported", "the call returned normally although step %d (%s) "
                         "raised" % (res["fired"], prim)))
         elif not moved:
@@ -1189,7 +1310,7 @@ def fault_kinds(case):
     return ("fserror", "oserror", "crash", "halt")
 
 
-def explore_case(case, tmpbase, repeats=1, stats=None):
+def explore_case(case, tmpbase, repeats=1, stats=None, class_mode="quick", seed=0, only_kind=None):
     """Enumerate every fault of one case.  Returns (n_steps, runs, violations, baseline_ok)."""
     base = run_once(case, tmpbase)
     if base["outcome"] != "ok" or not (fully_moved(case, base) or not scope_map(case, base["before"])):
@@ -1205,8 +1326,11 @@ def explore_case(case, tmpbase, repeats=1, stats=None):
             kinds = fault_kinds(case)
             if prim in ("read", "write", "close", "upload", "readinto", "flush"):
                 kinds = kinds + ("oserror-EINTR", "oserror-ENOENT", "oserror-EAGAIN")
+            kinds = kinds + class_kinds(case, k, prim, rep, class_mode, seed)
+            if only_kind is not None:
+                kinds = (only_kind,)
             for kind in kinds:
-                if prim == "os.rename" and kind == "fserror":
+                if prim == "os.rename" and (kind == "fserror" or kind.startswith("fs:")):
                     continue          # os.rename raises OSError only
                 for prefix in ((False, True) if prim in ("write", "upload") else (False,)):
                     target = k if workers == 0 else trace[k]
@@ -1216,6 +1340,11 @@ def explore_case(case, tmpbase, repeats=1, stats=None):
                     if stats is not None:
                         stats["by_primitive"][prim] = stats["by_primitive"].get(prim, 0) + 1
                         stats["by_kind"][fkind] = stats["by_kind"].get(fkind, 0) + 1
+                        if kind.startswith("fs:"):
+                            ck = "%s %s" % (prim, kind[3:])
+                            stats["class_faults"][ck] = stats["class_faults"].get(ck, 0) + 1
+                            if res["outcome"] == "ok" and res["fired"] is not None:
+                                stats["class_taken_as_answer"][ck] = stats["class_taken_as_answer"].get(ck, 0) + 1
                         oc = outcome_class(case, res)
                         stats["outcomes"][oc] = stats["outcomes"].get(oc, 0) + 1
                         if res["fired"] is None:
@@ -1234,7 +1363,12 @@ def explore_case(case, tmpbase, repeats=1, stats=None):
 
 
 def signature(case, v):
-    return "%s %s %s %s" % (v["kind"], case["function"], v["primitive"], v["fault_kind"])
+    sig = "%s %s %s %s" % (v["kind"], case["function"], v["primitive"], v["fault_kind"])
+    if v["fault_kind"].startswith("fs:") and case["backends"].startswith("multi("):
+        # a layered source: an answer of ONE layer re-routes the call to another layer (MultiFS semantics), which no
+        # other backend shape can show -- kept apart so that it cannot stand for a loss on a plain filesystem
+        sig += " [multifs-source]"
+    return sig
 
 
 # --------------------------------------------------------------------------- real failures
@@ -1443,7 +1577,8 @@ def shrink(case, v, tmpbase, budget_s=20.0):
             if time.time() - t0 > budget_s:
                 break
             try:
-                _n, _r, viols, ok, _b = explore_case(cand, tmpbase, repeats=2)
+                _n, _r, viols, ok, _b = explore_case(cand, tmpbase, repeats=2,
+                                                     only_kind=v["fault_kind"].split("+")[0])
             except Exception:
                 continue
             hit = [x for x in viols if signature(cand, x) == sig]
@@ -1666,7 +1801,7 @@ def load_local_known():
 
 def _new_stats():
     return dict(by_primitive={}, by_kind={}, outcomes={}, errors={}, not_fired=0, nontrivial=0,
-                nondeterministic=0)
+                nondeterministic=0, class_faults={}, class_taken_as_answer={})
 
 
 def _merge_counts(dst, src):
@@ -1677,7 +1812,7 @@ def _merge_counts(dst, src):
             dst[k] = dst.get(k, 0) + v
 
 
-def explore_cases(cases, repeats, deadline):
+def explore_cases(cases, repeats, deadline, class_mode="quick", seed=0):
     """Enumerate the faults of a list of cases (in this process).  Returns an aggregate."""
     tmpbase = _mktmp()
     agg = dict(stats=_new_stats(), findings={}, sig_counts={}, per_function={}, per_url={}, samples=[],
@@ -1690,7 +1825,8 @@ def explore_cases(cases, repeats, deadline):
                 agg["skipped_for_time"] = len(cases) - idx
                 break
             workers = case["args"].get("workers", 0)
-            n, runs, viols, ok, base = explore_case(case, tmpbase, repeats=repeats, stats=agg["stats"])
+            n, runs, viols, ok, base = explore_case(case, tmpbase, repeats=repeats, stats=agg["stats"],
+                                                        class_mode=class_mode, seed=seed)
             if not ok:
                 agg["invalid_cases"] += 1
                 if len(agg["invalid_samples"]) < 3:
@@ -1724,8 +1860,8 @@ def explore_cases(cases, repeats, deadline):
 
 
 def _pool_task(args):
-    cases, repeats, deadline = args
-    return explore_cases(cases, repeats, deadline)
+    cases, repeats, deadline, class_mode, seed = args
+    return explore_cases(cases, repeats, deadline, class_mode, seed)
 
 
 def explore(tier, seed, time_budget=None, procs=None, progress=False, known_sigs=()):
@@ -1739,15 +1875,16 @@ def explore(tier, seed, time_budget=None, procs=None, progress=False, known_sigs
         procs = max(1, min(14 if thorough else 12, (os.cpu_count() or 2) - 1))
     cases, universe = select_cases(tier, seed)
     repeats = 3 if thorough else 2
+    class_mode = "thorough" if thorough else "quick"
     deadline = t0 + time_budget
     if procs > 1:
         import multiprocessing
         ctx = multiprocessing.get_context("fork")
         chunks = [cases[i::procs] for i in range(procs)]
         with ctx.Pool(procs) as pool:
-            parts = pool.map(_pool_task, [(c, repeats, deadline) for c in chunks])
+            parts = pool.map(_pool_task, [(c, repeats, deadline, class_mode, seed) for c in chunks])
     else:
-        parts = [explore_cases(cases, repeats, deadline)]
+        parts = [explore_cases(cases, repeats, deadline, class_mode, seed)]
     out = dict(stats=_new_stats(), findings={}, sig_counts={}, per_function={}, per_url={}, samples=[],
                cases=0, exhaustive_cases=0, scheduled_cases=0, invalid_cases=0, invalid_samples=[],
                skipped_for_time=0, runs=0, steps=0)
@@ -1776,7 +1913,7 @@ def explore(tier, seed, time_budget=None, procs=None, progress=False, known_sigs
         n_shrunk = 0
         for sig in sorted(out["findings"]):
             case, v = out["findings"][sig]
-            if sig not in known_sigs and n_shrunk < 10 and shrink_left > 0.5 and v["fault_kind"] != "real":
+            if sig not in known_sigs and sig not in PENDING_FINDINGS and n_shrunk < 10 and shrink_left > 0.5 and v["fault_kind"] != "real":
                 ts = time.time()
                 case, v = shrink(case, v, tmpbase, budget_s=min(shrink_left, 20.0 if thorough else 3.0))
                 shrink_left -= time.time() - ts
@@ -1879,6 +2016,16 @@ def run(report):
         runs_per_configuration=dict(sorted(out["per_function"].items(), key=lambda kv: -kv[1])[:60]),
         signatures_observed=out["sig_counts"],
         pending_findings=pending,
+        error_classes_injected=list(CAUGHT_CLASSES),
+        error_class_catch_sites=dict((k, v) for k, v in sorted(CAUGHT_SITES.items())),
+        error_class_rule="fault kind fs:<Class> = the failing step raises that fs.errors class (every class named by "
+                         "an except clause of the library sources + %s); quick: the classes caught in >= 2 places (%s) + %d rotating others at every %s "
+                         "step, one rotating class at every other step; thorough: every class at every step.  Oracle: no source "
+                         "data lost; a call that returns normally after such an answer must have completed the move"
+                         % ("/".join(ALWAYS_CLASSES), "/".join(HOT_CLASSES), QUICK_ROTATING, "/".join(CLASS_KEY_PRIMS)),
+        class_fault_runs=sum(st["class_faults"].values()),
+        class_fault_runs_by_primitive_and_class=dict(sorted(st["class_faults"].items())),
+        class_faults_taken_as_answer=dict(sorted(st["class_taken_as_answer"].items())),
         url_runs=sum(n for k, n in out["per_url"].items()),
         url_runs_by_form=dict(sorted(out["per_url"].items())),
         real_failure_runs=out["real_failures"]["runs"],
